@@ -2,6 +2,7 @@ package symex
 
 import (
 	"go/types"
+	"sync"
 	"crypto/sha256"
 	"encoding/hex"
 	"fmt"
@@ -126,7 +127,11 @@ func (w *World) Harness(name string) (*ssa.Function, error) {
 	return f, nil
 }
 
+var hashMu sync.Mutex
+
 func (w *World) hashFile(f string) string {
+	hashMu.Lock()
+	defer hashMu.Unlock()
 	if h, ok := w.Hashes[f]; ok {
 		return h
 	}
